@@ -4,6 +4,7 @@ import (
 	"bufio"
 	"crypto/tls"
 	"encoding/json"
+	"errors"
 	"fmt"
 	"net"
 	"os"
@@ -47,6 +48,14 @@ type c14Batch struct {
 	Plans []c14Plan `json:"plans"`
 }
 
+// closeErrConn: a connection whose Close reports an error although it closes (tls.Conn with an unreachable peer).
+type closeErrConn struct{ net.Conn }
+
+func (c closeErrConn) Close() error {
+	c.Conn.Close()
+	return errors.New("tls: failed to send closeNotify alert (but connection was closed anyway)")
+}
+
 // runC14Plan executes one workload plan against a started server (in the race-instrumented child).
 func runC14Plan(p c14Plan) error {
 	srv := redis.NewServer()
@@ -57,6 +66,17 @@ func runC14Plan(p c14Plan) error {
 	}
 	if p.Password != "" {
 		srv.SetRequirePass(p.Password)
+	}
+	// certificate files for CONFIG SET tls-*-file (placeholders @cert @key @ca in the scripts)
+	files := map[string]string{}
+	if dir, err := os.MkdirTemp("", "c14pki"); err == nil {
+		defer os.RemoveAll(dir)
+		for name, data := range map[string][]byte{"@cert": pk.Server.CertPEM, "@key": pk.Server.KeyPEM, "@ca": pk.Root.CertPEM} {
+			f := filepath.Join(dir, name[1:]+".pem")
+			if os.WriteFile(f, data, 0o600) == nil {
+				files[name] = f
+			}
+		}
 	}
 	port, tlsPort, err := startOnFreePorts(srv, p.TLS)
 	if err != nil {
@@ -95,10 +115,14 @@ func runC14Plan(p c14Plan) error {
 						return
 					}
 					conn = c
-				case "pipe":
+				case "pipe", "pipe-closeerr":
 					a, b := net.Pipe()
+					var sc net.Conn = b
+					if mode == "pipe-closeerr" {
+						sc = closeErrConn{b}
+					}
 					served.Add(1)
-					go func() { defer served.Done(); srv.VerifServeConn(b); b.Close() }()
+					go func() { defer served.Done(); srv.VerifServeConn(sc); b.Close() }()
 					conn = a
 				default:
 					conn, _ = net.DialTimeout("tcp", addr, time.Second)
@@ -120,7 +144,13 @@ func runC14Plan(p c14Plan) error {
 							continue
 						}
 					}
-					req := resp.Cmd(st.Cmd...).Bytes()
+					cmd := st.Cmd
+					for i, a := range cmd {
+						if f, ok := files[a]; ok {
+							cmd = append(append([]string{}, cmd[:i]...), append([]string{f}, cmd[i+1:]...)...)
+						}
+					}
+					req := resp.Cmd(cmd...).Bytes()
 					if st.Raw != "" {
 						req = []byte(st.Raw)
 					}
@@ -343,6 +373,7 @@ func init() { register("c14.batch", evalC14Batch) }
 var c14Cmds = [][]string{{"GET", "k"}, {"SET", "k", "v"}, {"INCR", "n"}, {"APPEND", "k", "x"}, {"MSET", "a", "1", "b", "2"}, {"MGET", "a", "b"}, {"HSET", "h", "f", "v"}, {"HGETALL", "h"}, {"HKEYS", "h"},
 	{"LPUSH", "l", "a"}, {"LPOP", "l"}, {"LRANGE", "l", "0", "-1"}, {"SADD", "s", "m"}, {"SMEMBERS", "s"}, {"SCARD", "s"}, {"ZADD", "z", "1", "m"}, {"ZRANGE", "z", "0", "-1"}, {"ZCARD", "z"},
 	{"DEL", "k"}, {"EXISTS", "k"}, {"KEYS", "*"}, {"SCAN", "0"}, {"TYPE", "k"}, {"EXPIRE", "k", "10"}, {"TTL", "k"}, {"PING"}, {"ECHO", "x"}, {"SELECT", "1"}, {"AUTH", "p"}, {"NOSUCH"},
+	{"CONFIG", "SET", "tls-cert-file", "@cert"}, {"CONFIG", "SET", "tls-key-file", "@key"}, {"CONFIG", "SET", "tls-ca-cert-file", "@ca"}, {"CONFIG", "GET", "tls-cert-file"}, {"CONFIG", "GET", "tls-ca-cert-file"},
 	{"AUTH", "pw"}, {"AUTH", "pw2"}, {"CONFIG", "SET", "requirepass", "pw"}, {"CONFIG", "SET", "requirepass", ""}, {"CONFIG", "GET", "requirepass"},
 	{"CONFIG", "SET", "verif-a", "1"}, {"CONFIG", "SET", "verif-b", "2"}, {"CONFIG", "GET", "verif-a"}, {"CONFIG", "GET", "verif-a", "verif-b"}, {"CONFIG", "SET", "verif-a", "x", "verif-b", "y"}}
 
@@ -362,13 +393,13 @@ func genC14Plan(rt *rapid.T) c14Plan {
 			case 3:
 				script = append(script, c14Step{Raw: rapid.SampledFrom([]string{"+HELLO\r\n", ":1\r\n", "$4\r\nPING\r\n", "-ERR x\r\n", "*0\r\n", "*1\r\n$-1\r\n", "*1\r\n*0\r\n", "$-1\r\n"}).Draw(rt, "raw")})
 			case 4, 5:
-				script = append(script, c14Step{Cmd: c14Cmds[rapid.IntRange(len(c14Cmds)-10, len(c14Cmds)-1).Draw(rt, "cfg")]})
+				script = append(script, c14Step{Cmd: c14Cmds[rapid.IntRange(len(c14Cmds)-15, len(c14Cmds)-1).Draw(rt, "cfg")]})
 			default:
 				script = append(script, c14Step{Cmd: c14Cmds[rapid.IntRange(0, len(c14Cmds)-1).Draw(rt, "cmd")]})
 			}
 		}
 		p.Clients = append(p.Clients, script)
-		p.Modes = append(p.Modes, rapid.SampledFrom([]string{"tcp", "tcp", "tcp", "tls", "tls", "pipe"}).Draw(rt, "mode"))
+		p.Modes = append(p.Modes, rapid.SampledFrom([]string{"tcp", "tcp", "tcp", "tls", "tls", "pipe", "pipe-closeerr", "pipe-closeerr"}).Draw(rt, "mode"))
 	}
 	if rapid.IntRange(0, 2).Draw(rt, "pass") == 0 {
 		p.Password = "pw"
